@@ -1,10 +1,12 @@
-(* Proofs/C13.v — StopWatch: (A) the statement-level translation of the source
-   (Gen/C13_StopWatch.v) equals the hand model (Model/C13.v) method by method;
-   (B) invariants of all reachable configurations and the lemmas behind Properties/C13.v. *)
-From Coq Require Import ZArith List Bool Lia Sorting.Sorted.
+(* Proofs/C13.v — StopWatch, for EVERY number type T and operations N : num T (no hypothesis on N):
+   (A) the statement-level translation of the source (Gen/C13_StopWatch.v) equals the hand model
+       (Model/C13.v) method by method;
+   (B) invariants of all reachable configurations and every clause of the property that does not
+       depend on the order/arithmetic of T: the state machine, legality, frames, the shape of every
+       returned number.  Order-dependent clauses: Proofs/C13_Order.v; instances: C13_Z.v, C13_Float.v. *)
+From Coq Require Import List Bool Lia Sorting.Sorted PeanoNat.
 Require Import OV.Base.Bytes OV.Base.Py OV.Base.C13_Types OV.Gen.C13_StopWatch OV.Model.C13.
 Import ListNotations.
-Open Scope Z_scope.
 
 (* ===================================================================== *)
 (* A. translation = model                                                *)
@@ -14,10 +16,10 @@ Open Scope Z_scope.
 Definition enc_state (s : wstate) : ostate :=
   match s with SNone => None | SStarted => Some C13_STARTED | SStopped => Some C13_STOPPED end.
 
-Definition enc (c : cfg) : gst :=
+Definition enc {T} (c : cfg T) : gst T :=
   (enc_state (w_state (fst c)), w_started (fst c), w_stopped (fst c), w_splits (fst c), w_duration (fst c), snd c).
 
-Definition enc_out {A} (o : out A) : gst * res A := (enc (fst o), snd o).
+Definition enc_out {T A} (o : out T A) : gst T * res A := (enc (fst o), snd o).
 
 (* the state tags are distinct strings (otherwise the three states would collapse) *)
 Lemma state_tags_distinct : C13_STARTED <> C13_STOPPED.
@@ -55,19 +57,13 @@ Proof.
   destruct (last_opt r); reflexivity.
 Qed.
 
-Lemma delta_nonneg_A a b : 0 <= delta a b.
-Proof. unfold delta. lia. Qed.
+Section Equiv.
+Variable T : Type.
+Variable N : num T.
+Variable clk : nat -> T.
 
 Ltac by_cases w :=
   destruct w as [[| |] [?s|] [?p|] ?l [?d|]]; try reflexivity.
-
-(* two outcomes that differ in the returned number only: arithmetic *)
-Ltac same_number :=
-  try reflexivity;
-  match goal with
-  | |- (_, Ok (Some ?a)) = (_, Ok (Some ?b)) => replace a with b by lia; reflexivity
-  | |- (_, Ok ?a) = (_, Ok ?b) => replace a with b by lia; reflexivity
-  end.
 
 (* evaluate the state tests of a translated method on an encoded state *)
 Ltac norm :=
@@ -76,188 +72,172 @@ Ltac norm :=
   change (beq C13_STOPPED C13_STOPPED) with true; change (beq C13_STOPPED C13_STARTED) with false;
   cbn [negb orb andb]; cbv iota.
 
-(* the proofs below are by evaluation on each of the three states; arithmetic side conditions go to lia, so
-   that a behaviour-preserving rewrite of a comparison or of max() in the source still proves *)
-Lemma gen_delta_seconds_equiv earlier later : gen_delta_seconds earlier later = delta earlier later.
-Proof. unfold gen_delta_seconds, delta. lia. Qed.
+(* The proofs are by evaluation on each of the three states, for an arbitrary number type: the translated
+   text must use the same comparisons, subtractions and max() as the model — under float semantics
+   max(0.0, x) and max(x, 0.0), or > and >=, are different functions. *)
+Lemma gen_delta_seconds_equiv earlier later : gen_delta_seconds T N earlier later = delta N earlier later.
+Proof. reflexivity. Qed.
 
-Local Opaque delta.   (* keep [rewrite gen_delta_seconds_equiv] from unifying through delta *)
-
-Lemma gen_Split_equiv e l :
-  gen_Split e l = mkSplit e l /\ gen_Split_elapsed (mkSplit e l) = e /\ gen_Split_length (mkSplit e l) = l.
+Lemma gen_Split_equiv (e l : T) :
+  gen_Split T e l = mkSplit e l /\ gen_Split_elapsed T (mkSplit e l) = e /\ gen_Split_length T (mkSplit e l) = l.
 Proof. repeat split. Qed.
 
-Lemma gen_init_equiv clk g1 g2 g3 g4 g5 t duration :
-  gen_init clk g1 g2 g3 g4 g5 t duration =
-  match init duration with
+Lemma gen_init_equiv g1 g2 g3 g4 g5 t duration :
+  gen_init T N clk g1 g2 g3 g4 g5 t duration =
+  match init N duration with
   | Ok w => (enc (w, t), Ok tt)
   | Exn e => ((g1, g2, g3, g4, g5, t), Exn e)
   end.
 Proof.
   unfold gen_init, init. destruct duration as [d|]; [|reflexivity].
-  repeat match goal with |- context [if ?c then _ else _] => destruct c eqn:? end; try reflexivity; lia.
+  destruct (n_gtb N (n_zero N) d); reflexivity.
 Qed.
 
-Lemma gen_start_equiv clk w t :
-  gen_start clk (enc_state (w_state w)) (w_started w) (w_stopped w) (w_splits w) (w_duration w) t = enc_out (start clk w t).
+Lemma gen_start_equiv w t :
+  gen_start T N clk (enc_state (w_state w)) (w_started w) (w_stopped w) (w_splits w) (w_duration w) t = enc_out (start N clk w t).
 Proof. by_cases w. Qed.
 
-Lemma gen_stop_equiv clk w t :
-  gen_stop clk (enc_state (w_state w)) (w_started w) (w_stopped w) (w_splits w) (w_duration w) t = enc_out (stop clk w t).
+Lemma gen_stop_equiv w t :
+  gen_stop T N clk (enc_state (w_state w)) (w_started w) (w_stopped w) (w_splits w) (w_duration w) t = enc_out (stop N clk w t).
 Proof. by_cases w. Qed.
 
-Lemma gen_resume_equiv clk w t :
-  gen_resume clk (enc_state (w_state w)) (w_started w) (w_stopped w) (w_splits w) (w_duration w) t = enc_out (resume w t).
+Lemma gen_resume_equiv w t :
+  gen_resume T N clk (enc_state (w_state w)) (w_started w) (w_stopped w) (w_splits w) (w_duration w) t = enc_out (resume N clk w t).
 Proof. by_cases w. Qed.
 
-Lemma gen_restart_equiv clk w t :
-  gen_restart clk (enc_state (w_state w)) (w_started w) (w_stopped w) (w_splits w) (w_duration w) t = enc_out (restart clk w t).
+Lemma gen_restart_equiv w t :
+  gen_restart T N clk (enc_state (w_state w)) (w_started w) (w_stopped w) (w_splits w) (w_duration w) t = enc_out (restart N clk w t).
 Proof. by_cases w. Qed.
 
-Lemma gen_elapsed_equiv clk w t maximum :
-  gen_elapsed clk (enc_state (w_state w)) (w_started w) (w_stopped w) (w_splits w) (w_duration w) t maximum
-  = enc_out (elapsed clk w t maximum).
+Lemma gen_elapsed_equiv w t maximum :
+  gen_elapsed T N clk (enc_state (w_state w)) (w_started w) (w_stopped w) (w_splits w) (w_duration w) t maximum
+  = enc_out (elapsed N clk w t maximum).
 Proof.
   destruct w as [[| |] [s|] [p|] l d]; destruct maximum as [m|]; try reflexivity;
-    unfold gen_elapsed, elapsed, enc_out, enc, clamp_max; norm; rewrite ?gen_delta_seconds_equiv; try reflexivity;
-    pose proof (delta_nonneg_A s (clk t)); try pose proof (delta_nonneg_A s p);
-    repeat match goal with |- context [if ?c then _ else _] => destruct c eqn:? end;
-    same_number.
+    unfold gen_elapsed, elapsed, enc_out, enc, clamp_max; norm;
+    change (gen_delta_seconds T N ?a ?b) with (delta N a b);
+    match goal with |- context [if n_gtb N ?a ?b then _ else _] => destruct (n_gtb N a b) end; reflexivity.
 Qed.
 
 (* from here on the translated elapsed() is used through its equivalence only *)
-Ltac use_elapsed clk st sa so sl sd t m :=
+Ltac use_elapsed st sa so sl sd t m :=
   let HE := fresh "HE" in
-  pose proof (gen_elapsed_equiv clk (mkWatch st sa so sl sd) t m) as HE;
+  pose proof (gen_elapsed_equiv (mkWatch st sa so sl sd) t m) as HE;
   cbn [enc_state w_state w_started w_stopped w_splits w_duration] in HE; rewrite HE; clear HE;
   unfold elapsed, enc_out, enc, clamp_max; norm.
 
-Lemma gen_split_equiv clk w t :
-  gen_split clk (enc_state (w_state w)) (w_started w) (w_stopped w) (w_splits w) (w_duration w) t = enc_out (split_ clk w t).
+Lemma gen_split_equiv w t :
+  gen_split T N clk (enc_state (w_state w)) (w_started w) (w_stopped w) (w_splits w) (w_duration w) t = enc_out (split_ N clk w t).
 Proof.
   destruct w as [[| |] [s|] p l d]; try reflexivity; unfold gen_split, split_, enc_out, enc; norm.
-  use_elapsed clk SStarted (Some s) p l d t (@None Z). unfold set_splits. norm.
-    pose proof (nonempty_last l) as HL.
-    destruct (last_opt l) as [x|] eqn:EL.
-    + rewrite HL. rewrite !last_opt_app. unfold gen_Split, gen_Split_elapsed. rewrite (gen_delta_seconds_equiv (sp_elapsed x)). reflexivity.
-    + subst l. cbn [nonempty app]. reflexivity.
+  use_elapsed SStarted (Some s) p l d t (@None T). unfold set_splits. norm.
+  pose proof (nonempty_last l) as HL.
+  destruct (last_opt l) as [x|] eqn:EL.
+  - rewrite HL. rewrite !last_opt_app. reflexivity.
+  - subst l. cbn [nonempty app]. reflexivity.
 Qed.
 
-Lemma gen_leftover_equiv clk w t return_none :
-  gen_leftover clk (enc_state (w_state w)) (w_started w) (w_stopped w) (w_splits w) (w_duration w) t return_none
-  = enc_out (leftover clk w t return_none).
+Lemma gen_leftover_equiv w t return_none :
+  gen_leftover T N clk (enc_state (w_state w)) (w_started w) (w_stopped w) (w_splits w) (w_duration w) t return_none
+  = enc_out (leftover N clk w t return_none).
 Proof.
   destruct w as [[| |] sa p l [d|]]; destruct return_none; try reflexivity;
     unfold gen_leftover, leftover, enc_out, enc; norm;
-    use_elapsed clk SStarted sa p l (Some d) t (@None Z); destruct sa; norm; same_number.
+    use_elapsed SStarted sa p l (Some d) t (@None T); destruct sa; norm; reflexivity.
 Qed.
 
-Lemma gen_expired_equiv clk w t :
-  gen_expired clk (enc_state (w_state w)) (w_started w) (w_stopped w) (w_splits w) (w_duration w) t = enc_out (expired clk w t).
+Lemma gen_expired_equiv w t :
+  gen_expired T N clk (enc_state (w_state w)) (w_started w) (w_stopped w) (w_splits w) (w_duration w) t = enc_out (expired N clk w t).
 Proof.
   destruct w as [[| |] sa so l [d|]]; try reflexivity; unfold gen_expired, expired, enc_out, enc; norm.
-  - use_elapsed clk SStarted sa so l (Some d) t (@None Z). destruct sa; norm; same_number.
-  - use_elapsed clk SStopped sa so l (Some d) t (@None Z). destruct sa, so; norm; same_number.
+  - use_elapsed SStarted sa so l (Some d) t (@None T). destruct sa; norm; reflexivity.
+  - use_elapsed SStopped sa so l (Some d) t (@None T). destruct sa, so; norm; reflexivity.
 Qed.
 
-Lemma gen_has_started_equiv clk w t :
-  gen_has_started clk (enc_state (w_state w)) (w_started w) (w_stopped w) (w_splits w) (w_duration w) t = enc_out (has_started w t).
+Lemma gen_has_started_equiv w t :
+  gen_has_started T N clk (enc_state (w_state w)) (w_started w) (w_stopped w) (w_splits w) (w_duration w) t = enc_out (has_started w t).
 Proof. by_cases w. Qed.
 
-Lemma gen_has_stopped_equiv clk w t :
-  gen_has_stopped clk (enc_state (w_state w)) (w_started w) (w_stopped w) (w_splits w) (w_duration w) t = enc_out (has_stopped w t).
+Lemma gen_has_stopped_equiv w t :
+  gen_has_stopped T N clk (enc_state (w_state w)) (w_started w) (w_stopped w) (w_splits w) (w_duration w) t = enc_out (has_stopped w t).
 Proof. by_cases w. Qed.
 
-Lemma gen_splits_equiv clk w t :
-  gen_splits clk (enc_state (w_state w)) (w_started w) (w_stopped w) (w_splits w) (w_duration w) t = enc_out (splits w t).
+Lemma gen_splits_equiv w t :
+  gen_splits T N clk (enc_state (w_state w)) (w_started w) (w_stopped w) (w_splits w) (w_duration w) t = enc_out (splits w t).
 Proof. by_cases w. Qed.
 
-Lemma gen_enter_equiv clk w t :
-  gen_enter clk (enc_state (w_state w)) (w_started w) (w_stopped w) (w_splits w) (w_duration w) t = enc_out (enter clk w t).
+Lemma gen_enter_equiv w t :
+  gen_enter T N clk (enc_state (w_state w)) (w_started w) (w_stopped w) (w_splits w) (w_duration w) t = enc_out (enter N clk w t).
 Proof. by_cases w. Qed.
 
 (* whatever the exception triple is: the arguments are ignored, the return value is None (never True: the
    exception of the with-body is not suppressed) *)
-Lemma gen_exit_equiv clk w t type value traceback :
-  gen_exit clk (enc_state (w_state w)) (w_started w) (w_stopped w) (w_splits w) (w_duration w) t type value traceback
-  = (enc (fst (exit_ clk w t)), match snd (exit_ clk w t) with Ok _ => Ok None | Exn e => Exn e end).
+Lemma gen_exit_equiv w t type value traceback :
+  gen_exit T N clk (enc_state (w_state w)) (w_started w) (w_stopped w) (w_splits w) (w_duration w) t type value traceback
+  = (enc (fst (exit_ N clk w t)), match snd (exit_ N clk w t) with Ok _ => Ok None | Exn e => Exn e end).
 Proof. destruct type, value, traceback; by_cases w. Qed.
-
-Local Transparent delta.
 
 (* the default arguments of the source are the ones the property's calls use *)
 Lemma gen_defaults_equiv :
-  gen_elapsed_default_maximum = None /\ gen_leftover_default_return_none = false /\ gen_init_default_duration = None.
+  gen_elapsed_default_maximum T = None /\ gen_leftover_default_return_none T = false /\ gen_init_default_duration T = None.
 Proof. repeat split. Qed.
 
+End Equiv.
+
 (* ===================================================================== *)
-(* B. properties of the model                                            *)
+(* B. the state machine, for every number type                            *)
 (* ===================================================================== *)
 
 Arguments delta : simpl never.
 Arguments clamp_max : simpl never.
+Arguments max0 : simpl never.
 
-Lemma delta_nonneg a b : 0 <= delta a b.
-Proof. unfold delta. lia. Qed.
+Section Machine.
+Variable T : Type.
+Variable N : num T.
+Variable clk : nat -> T.
 
-Lemma delta_exact a b : a <= b -> delta a b = b - a.
-Proof. unfold delta. lia. Qed.
+(* ---- the shape of max(0.0, x): 0.0, or x itself when x > 0.0 ---- *)
 
-Lemma clamp_max_nonneg m e : 0 <= e -> 0 <= clamp_max m e.
-Proof. unfold clamp_max. destruct m as [m|]; [destruct (e >? m)|]; lia. Qed.
+(* "zero or positive": the only values max(0.0, .) returns *)
+Definition pos0 (v : T) : Prop := v = n_zero N \/ n_gtb N v (n_zero N) = true.
 
-Lemma clamp_max_none e : clamp_max None e = e.
-Proof. reflexivity. Qed.
+Lemma max0_cases x :
+  (n_gtb N x (n_zero N) = true /\ max0 N x = x) \/ (n_gtb N x (n_zero N) = false /\ max0 N x = n_zero N).
+Proof. unfold max0, n_max. destruct (n_gtb N x (n_zero N)); auto. Qed.
 
-Lemma clamp_max_some m e : clamp_max (Some m) e = if e <=? m then e else Z.max 0 m.
-Proof. unfold clamp_max. destruct (e >? m) eqn:E1, (e <=? m) eqn:E2; lia. Qed.
+Lemma max0_pos0 x : pos0 (max0 N x).
+Proof. destruct (max0_cases x) as [[H ->]|[H ->]]; [right; exact H|left; reflexivity]. Qed.
 
-Lemma clamp_max_le m e : clamp_max (Some m) e <= Z.max 0 m.
-Proof. rewrite clamp_max_some. destruct (e <=? m) eqn:E; lia. Qed.
+Lemma delta_pos0 a b : pos0 (delta N a b).
+Proof. apply max0_pos0. Qed.
 
-Lemma monotone_uptob_spec clk n : monotone_uptob clk n = true <-> monotone_upto clk n.
+Lemma clamp_max_pos0 m e : pos0 e -> pos0 (clamp_max N m e).
 Proof.
-  unfold monotone_uptob, monotone_upto. rewrite forallb_forall. split.
-  - intros H i Hi. apply Z.leb_le, H, in_seq. lia.
-  - intros H i Hi. apply in_seq in Hi. apply Z.leb_le, H. lia.
+  intro H. unfold clamp_max. destruct m as [m|]; [|exact H].
+  destruct (n_gtb N e m); [apply max0_pos0|exact H].
 Qed.
 
-Lemma monotone_le clk n : monotone_upto clk n -> forall i j, (i <= j < n)%nat -> clk i <= clk j.
-Proof.
-  intros H i j [Hij Hj]. induction j as [|j IH].
-  - assert (i = 0%nat) by lia. subst. lia.
-  - destruct (Nat.eq_dec i (S j)) as [->|Hne]; [lia|].
-    transitivity (clk j); [apply IH; lia|apply H; lia].
-Qed.
+Lemma clamp_max_cases m e :
+  (n_gtb N e m = false /\ clamp_max N (Some m) e = e) \/
+  (n_gtb N e m = true /\ clamp_max N (Some m) e = max0 N m).
+Proof. unfold clamp_max. destruct (n_gtb N e m); auto. Qed.
 
-Lemma monotone_upto_weaken clk n m : (m <= n)%nat -> monotone_upto clk n -> monotone_upto clk m.
-Proof. intros Hm H i Hi. apply H. lia. Qed.
+(* ---- the invariant ---- *)
 
-Section Invariant.
-Variable clk : nat -> Z.
-
-(* the splits obtained by reading the clock at the ticks ks while started_at = s *)
-Fixpoint build (s : Z) (prev : option Z) (ks : list nat) : list split :=
-  match ks with
-  | [] => []
-  | k :: r =>
-      let e := delta s (clk k) in
-      mkSplit e (match prev with Some p => delta p e | None => e end) :: build s (Some e) r
-  end.
-
-Definition lastE (prev : option Z) (l : list split) : option Z :=
+Definition lastE (prev : option T) (l : list (split T)) : option T :=
   match last_opt l with Some x => Some (sp_elapsed x) | None => prev end.
 
 Lemma build_snoc s prev ks k :
-  build s prev (ks ++ [k]) =
-  build s prev ks ++ [mkSplit (delta s (clk k))
-                        (match lastE prev (build s prev ks) with
-                         | Some p => delta p (delta s (clk k)) | None => delta s (clk k) end)].
+  build N clk s prev (ks ++ [k]) =
+  build N clk s prev ks ++ [mkSplit (delta N s (clk k))
+                        (match lastE prev (build N clk s prev ks) with
+                         | Some p => delta N p (delta N s (clk k)) | None => delta N s (clk k) end)].
 Proof.
   revert prev. induction ks as [|a r IH]; intro prev; [reflexivity|].
   cbn [build app]. rewrite IH. do 3 f_equal.
   unfold lastE. rewrite last_opt_cons.
-  destruct (last_opt (build s (Some (delta s (clk a))) r)); reflexivity.
+  destruct (last_opt (build N clk s (Some (delta N s (clk a))) r)); reflexivity.
 Qed.
 
 Definition ticks_ok (i t : nat) (ks : list nat) : Prop :=
@@ -289,31 +269,32 @@ Proof.
     constructor; [lia|constructor].
 Qed.
 
-(* the invariant of every reachable configuration *)
-Definition wf (c : cfg) : Prop :=
+(* the invariant of every reachable configuration: the timestamps are clock readings taken in this order,
+   the splits are the ones [build] computes from the readings taken by the split calls *)
+Definition wf (c : cfg T) : Prop :=
   let w := fst c in
   let t := snd c in
   match w_state w with
   | SNone => w_started w = None /\ w_stopped w = None /\ w_splits w = []
   | SStarted =>
       exists i ks, (i < t)%nat /\ w_started w = Some (clk i) /\ ticks_ok i t ks /\
-                   w_splits w = build (clk i) None ks
+                   w_splits w = build N clk (clk i) None ks
   | SStopped =>
       exists i j ks, (i < j < t)%nat /\ w_started w = Some (clk i) /\ w_stopped w = Some (clk j) /\
-                     ticks_ok i t ks /\ w_splits w = build (clk i) None ks
+                     ticks_ok i t ks /\ w_splits w = build N clk (clk i) None ks
   end.
 
 Ltac wcases w :=
   destruct w as [st sa so sl sd]; destruct st;
   cbn [fst snd w_state w_started w_stopped w_splits w_duration set_state set_splits] in *.
 
-Lemma init_wf duration w0 : init duration = Ok w0 -> wf (w0, 0%nat).
+Lemma init_wf duration w0 : init N duration = Ok w0 -> wf (w0, 0%nat).
 Proof.
-  unfold init. destruct duration as [d|]; [destruct (d <? 0)|]; intro H; inversion H; subst;
+  unfold init. destruct duration as [d|]; [destruct (n_gtb N (n_zero N) d)|]; intro H; inversion H; subst;
     cbn; repeat split.
 Qed.
 
-Lemma start_wf w t : wf (w, t) -> wf (fst (start clk w t)).
+Lemma start_wf w t : wf (w, t) -> wf (fst (start N clk w t)).
 Proof.
   unfold wf, start. wcases w; intro H; cbn [fst snd w_state w_started w_stopped w_splits w_duration].
   - exists t, []. split; [lia|]. split; [reflexivity|]. split; [apply ticks_ok_nil|reflexivity].
@@ -321,7 +302,7 @@ Proof.
   - exists t, []. split; [lia|]. split; [reflexivity|]. split; [apply ticks_ok_nil|reflexivity].
 Qed.
 
-Lemma stop_wf w t : wf (w, t) -> wf (fst (stop clk w t)).
+Lemma stop_wf w t : wf (w, t) -> wf (fst (stop N clk w t)).
 Proof.
   unfold wf, stop. wcases w; intro H; cbn [fst snd w_state w_started w_stopped w_splits w_duration]; try exact H.
   destruct H as (i & ks & Hi & Hs & Hk & Hb). exists i, t, ks.
@@ -329,14 +310,14 @@ Proof.
   eapply ticks_ok_weaken; [|exact Hk]. lia.
 Qed.
 
-Lemma resume_wf w t : wf (w, t) -> wf (fst (resume w t)).
+Lemma resume_wf w t : wf (w, t) -> wf (fst (resume N clk w t)).
 Proof.
   unfold wf, resume. wcases w; intro H; cbn [fst snd w_state w_started w_stopped w_splits w_duration]; try exact H.
   destruct H as (i & j & ks & Hi & Hs & Hp & Hk & Hb). exists i, ks.
   split; [lia|]. split; [exact Hs|]. split; [exact Hk|exact Hb].
 Qed.
 
-Lemma restart_wf w t : wf (w, t) -> wf (fst (restart clk w t)).
+Lemma restart_wf w t : wf (w, t) -> wf (fst (restart N clk w t)).
 Proof.
   unfold wf, restart. wcases w; intro H; cbn [fst snd w_state w_started w_stopped w_splits w_duration].
   - exists t, []. split; [lia|]. split; [reflexivity|]. split; [apply ticks_ok_nil|reflexivity].
@@ -344,7 +325,7 @@ Proof.
   - exists t, []. split; [lia|]. split; [reflexivity|]. split; [apply ticks_ok_nil|reflexivity].
 Qed.
 
-Lemma elapsed_wf w t m : wf (w, t) -> wf (fst (elapsed clk w t m)).
+Lemma elapsed_wf w t m : wf (w, t) -> wf (fst (elapsed N clk w t m)).
 Proof.
   unfold wf, elapsed. wcases w; intro H; cbn [fst snd w_state w_started w_stopped w_splits w_duration].
   - exact H.
@@ -357,7 +338,7 @@ Proof.
     exists i, j, ks. split; [lia|]. split; [reflexivity|]. split; [reflexivity|]. split; [exact Hk|exact Hb].
 Qed.
 
-Lemma split_wf w t : wf (w, t) -> wf (fst (split_ clk w t)).
+Lemma split_wf w t : wf (w, t) -> wf (fst (split_ N clk w t)).
 Proof.
   unfold wf, split_. wcases w; intro H; cbn [fst snd w_state w_started w_stopped w_splits w_duration]; try exact H.
   destruct H as (i & ks & Hi & Hs & Hk & Hb). subst sa.
@@ -367,32 +348,32 @@ Proof.
   - rewrite build_snoc, <- Hb. unfold lastE. destruct (last_opt sl); reflexivity.
 Qed.
 
-Lemma leftover_wf w t rn : wf (w, t) -> wf (fst (leftover clk w t rn)).
+Lemma leftover_wf w t rn : wf (w, t) -> wf (fst (leftover N clk w t rn)).
 Proof.
   intro H. unfold leftover.
   destruct (w_state w); try exact H. destruct (w_duration w); [|destruct rn; exact H].
   pose proof (elapsed_wf w t None H) as HE.
-  destruct (elapsed clk w t None) as [c [e|x]]; exact HE.
+  destruct (elapsed N clk w t None) as [c [e|x]]; exact HE.
 Qed.
 
-Lemma expired_wf w t : wf (w, t) -> wf (fst (expired clk w t)).
+Lemma expired_wf w t : wf (w, t) -> wf (fst (expired N clk w t)).
 Proof.
   intro H. unfold expired.
   destruct (w_state w); try exact H; (destruct (w_duration w); [|exact H]);
     pose proof (elapsed_wf w t None H) as HE;
-    destruct (elapsed clk w t None) as [c [e|x]]; exact HE.
+    destruct (elapsed N clk w t None) as [c [e|x]]; exact HE.
 Qed.
 
-Lemma exit_wf w t : wf (w, t) -> wf (fst (exit_ clk w t)).
+Lemma exit_wf w t : wf (w, t) -> wf (fst (exit_ N clk w t)).
 Proof.
   intro H. unfold exit_. pose proof (stop_wf w t H) as HS.
-  destruct (stop clk w t) as [c [u|x]]; [exact HS|]. destruct x; exact HS.
+  destruct (stop N clk w t) as [c [u|x]]; [exact HS|]. destruct x; exact HS.
 Qed.
 
-Lemma fst_wrap {A} (f : A -> value) (o : out A) : fst (wrap f o) = fst o.
+Lemma fst_wrap {A} (f : A -> value T) (o : out T A) : fst (wrap f o) = fst o.
 Proof. destruct o as [c [a|e]]; reflexivity. Qed.
 
-Lemma step_wf o w t : wf (w, t) -> wf (fst (step clk o w t)).
+Lemma step_wf o w t : wf (w, t) -> wf (fst (step N clk o w t)).
 Proof.
   intro H. destruct o; unfold step; rewrite fst_wrap.
   - apply start_wf, H.
@@ -410,102 +391,84 @@ Proof.
   - apply exit_wf, H.
 Qed.
 
-Lemma final_wf ops : forall w t, wf (w, t) -> wf (final clk ops w t).
+Lemma final_wf ops : forall w t, wf (w, t) -> wf (final N clk ops w t).
 Proof.
   induction ops as [|o r IH]; intros w t H; [exact H|].
   cbn [final]. pose proof (step_wf o w t H) as HS.
-  destruct (step clk o w t) as [[w' t'] res]. apply IH, HS.
+  destruct (step N clk o w t) as [[w' t'] res]. apply IH, HS.
 Qed.
 
-Lemma reachable_wf c : reachable clk c -> wf c.
+Lemma reachable_wf c : reachable N clk c -> wf c.
 Proof.
   intros (d & w0 & ops & Hi & Hf). subst c. apply final_wf. eapply init_wf, Hi.
 Qed.
 
 Lemma final_app ops1 ops2 w t :
-  final clk (ops1 ++ ops2) w t = final clk ops2 (fst (final clk ops1 w t)) (snd (final clk ops1 w t)).
+  final N clk (ops1 ++ ops2) w t = final N clk ops2 (fst (final N clk ops1 w t)) (snd (final N clk ops1 w t)).
 Proof.
   revert w t. induction ops1 as [|o r IH]; intros w t; [reflexivity|].
-  cbn [app final]. destruct (step clk o w t) as [[w' t'] res]. apply IH.
+  cbn [app final]. destruct (step N clk o w t) as [[w' t'] res]. apply IH.
 Qed.
 
-Lemma reachable_step o w t : reachable clk (w, t) -> reachable clk (fst (step clk o w t)).
+Lemma reachable_step o w t : reachable N clk (w, t) -> reachable N clk (fst (step N clk o w t)).
 Proof.
   intros (d & w0 & ops & Hi & Hf). exists d, w0, (ops ++ [o]). split; [exact Hi|].
-  rewrite final_app, Hf. cbn [fst snd final]. destruct (step clk o w t) as [[w' t'] res]. reflexivity.
+  rewrite final_app, Hf. cbn [fst snd final]. destruct (step N clk o w t) as [[w' t'] res]. reflexivity.
 Qed.
 
-Lemma reachable_init duration w0 : init duration = Ok w0 -> reachable clk (w0, 0%nat).
+Lemma reachable_init duration w0 : init N duration = Ok w0 -> reachable N clk (w0, 0%nat).
 Proof. intro H. exists duration, w0, []. split; [exact H|reflexivity]. Qed.
 
 (* every configuration of a history is reachable, so a statement about all reachable
    configurations and all next calls is a statement about every call of every history *)
-Lemma trace_Forall (P : cfg * res value -> Prop) :
-  (forall o w t, reachable clk (w, t) -> P (step clk o w t)) ->
-  forall ops w t, reachable clk (w, t) -> Forall P (trace clk ops w t).
+Lemma trace_Forall (P : cfg T * res (value T) -> Prop) :
+  (forall o w t, reachable N clk (w, t) -> P (step N clk o w t)) ->
+  forall ops w t, reachable N clk (w, t) -> Forall P (trace N clk ops w t).
 Proof.
   intros HP ops. induction ops as [|o r IH]; intros w t HR; [constructor|].
   cbn [trace]. pose proof (reachable_step o w t HR) as HS. pose proof (HP o w t HR) as HPo.
-  destruct (step clk o w t) as [[w' t'] res] eqn:E. constructor; [exact HPo|apply IH, HS].
+  destruct (step N clk o w t) as [[w' t'] res] eqn:E. constructor; [exact HPo|apply IH, HS].
 Qed.
 
-End Invariant.
+(* ---- elapsed: what the code computes, and the shape of the result ---- *)
 
-Section Props.
-Variable clk : nat -> Z.
-
-Ltac wcases w :=
-  destruct w as [st sa so sl sd]; destruct st;
-  cbn [fst snd w_state w_started w_stopped w_splits w_duration set_state set_splits] in *.
-
-(* ---- elapsed ---- *)
-
-Lemma elapsed_nonneg w t m c e : elapsed clk w t m = (c, Ok e) -> 0 <= e.
+Lemma elapsed_pos0 w t m c e : elapsed N clk w t m = (c, Ok e) -> pos0 e.
 Proof.
   unfold elapsed. destruct (w_state w), (w_started w), (w_stopped w); intro H; inversion H; subst;
-    apply clamp_max_nonneg, delta_nonneg.
+    apply clamp_max_pos0, delta_pos0.
 Qed.
 
+(* while running: one clock reading, the watch is unchanged, the value is _delta_seconds(started_at, now)
+   cut at the maximum; started_at is an earlier clock reading *)
 Lemma elapsed_running w t :
-  reachable clk (w, t) -> w_state w = SStarted ->
-  exists s, w_started w = Some s /\
-    (forall m, elapsed clk w t m = ((w, S t), Ok (clamp_max m (Z.max 0 (clk t - s))))) /\
-    (monotone_uptob clk (S t) = true -> 0 <= clk t - s /\ elapsed clk w t None = ((w, S t), Ok (clk t - s))).
+  reachable N clk (w, t) -> w_state w = SStarted ->
+  exists i, (i < t)%nat /\ w_started w = Some (clk i) /\
+    forall m, elapsed N clk w t m = ((w, S t), Ok (clamp_max N m (delta N (clk i) (clk t)))).
 Proof.
   intros HR HS. apply reachable_wf in HR. unfold wf in HR. cbn [fst snd] in HR. rewrite HS in HR.
-  destruct HR as (i & ks & Hi & Hst & _ & _). exists (clk i). split; [exact Hst|].
-  assert (HE : forall m, elapsed clk w t m = (w, S t, Ok (clamp_max m (Z.max 0 (clk t - clk i))))).
-  { intro m. unfold elapsed. rewrite HS, Hst. reflexivity. }
-  split; [exact HE|]. intro HM. apply monotone_uptob_spec in HM.
-  assert (clk i <= clk t) by (apply (monotone_le clk (S t) HM); lia).
-  split; [lia|]. rewrite HE, clamp_max_none. do 2 f_equal. lia.
+  destruct HR as (i & ks & Hi & Hst & _ & _). exists i. split; [exact Hi|]. split; [exact Hst|].
+  intro m. unfold elapsed. rewrite HS, Hst. reflexivity.
 Qed.
 
+(* while stopped: no clock reading, the value is _delta_seconds(started_at, stopped_at) *)
 Lemma elapsed_stopped w t :
-  reachable clk (w, t) -> w_state w = SStopped ->
-  exists s p, w_started w = Some s /\ w_stopped w = Some p /\
-    (forall m, elapsed clk w t m = ((w, t), Ok (clamp_max m (Z.max 0 (p - s))))) /\
-    (monotone_uptob clk t = true -> 0 <= p - s /\ elapsed clk w t None = ((w, t), Ok (p - s))).
+  reachable N clk (w, t) -> w_state w = SStopped ->
+  exists i j, (i < j < t)%nat /\ w_started w = Some (clk i) /\ w_stopped w = Some (clk j) /\
+    forall m, elapsed N clk w t m = ((w, t), Ok (clamp_max N m (delta N (clk i) (clk j)))).
 Proof.
   intros HR HS. apply reachable_wf in HR. unfold wf in HR. cbn [fst snd] in HR. rewrite HS in HR.
-  destruct HR as (i & j & ks & Hi & Hst & Hsp & _ & _). exists (clk i), (clk j).
-  split; [exact Hst|]. split; [exact Hsp|].
-  assert (HE : forall m, elapsed clk w t m = (w, t, Ok (clamp_max m (Z.max 0 (clk j - clk i))))).
-  { intro m. unfold elapsed. rewrite HS, Hst, Hsp. reflexivity. }
-  split; [exact HE|]. intro HM. apply monotone_uptob_spec in HM.
-  assert (clk i <= clk j) by (apply (monotone_le clk t HM); lia).
-  split; [lia|]. rewrite HE, clamp_max_none. do 2 f_equal. lia.
+  destruct HR as (i & j & ks & Hi & Hst & Hsp & _ & _). exists i, j.
+  split; [exact Hi|]. split; [exact Hst|]. split; [exact Hsp|].
+  intro m. unfold elapsed. rewrite HS, Hst, Hsp. reflexivity.
 Qed.
 
+(* elapsed(maximum) is elapsed() cut at the maximum, at the same clock reading *)
 Lemma elapsed_max w t m c e :
-  elapsed clk w t (Some m) = (c, Ok e) ->
-  exists e0, elapsed clk w t None = (c, Ok e0) /\
-             e = (if e0 <=? m then e0 else Z.max 0 m) /\ e <= Z.max 0 m /\ (0 <= m -> e <= m).
+  elapsed N clk w t (Some m) = (c, Ok e) ->
+  exists e0, elapsed N clk w t None = (c, Ok e0) /\ e = clamp_max N (Some m) e0.
 Proof.
   unfold elapsed. destruct (w_state w), (w_started w) as [s|], (w_stopped w) as [p|]; intro H; inversion H; subst;
-    (eexists; split; [reflexivity|]); rewrite clamp_max_none;
-    (split; [apply clamp_max_some|]); pose proof (clamp_max_le m) as HL;
-    (split; [apply HL|intro; etransitivity; [apply HL|lia]]).
+    eexists; split; reflexivity.
 Qed.
 
 (* ---- leftover / expired ---- *)
@@ -513,9 +476,9 @@ Qed.
 Lemma leftover_spec w t rn :
   w_state w = SStarted ->
   match w_duration w with
-  | Some d => forall c e, elapsed clk w t None = (c, Ok e) ->
-                          leftover clk w t rn = (c, Ok (Some (Z.max 0 (d - e))))
-  | None => leftover clk w t rn = ((w, t), if rn then Ok None else Exn RuntimeError)
+  | Some d => forall c e, elapsed N clk w t None = (c, Ok e) ->
+                          leftover N clk w t rn = (c, Ok (Some (max0 N (n_sub N d e))))
+  | None => leftover N clk w t rn = ((w, t), if rn then Ok None else Exn RuntimeError)
   end.
 Proof.
   intro HS. unfold leftover. rewrite HS. destruct (w_duration w) as [d|].
@@ -526,24 +489,23 @@ Qed.
 Lemma expired_spec w t :
   w_state w <> SNone ->
   match w_duration w with
-  | Some d => forall c e, elapsed clk w t None = (c, Ok e) ->
-                          exists b, expired clk w t = (c, Ok b) /\ (b = true <-> e > d)
-  | None => expired clk w t = ((w, t), Ok false)
+  | Some d => forall c e, elapsed N clk w t None = (c, Ok e) -> expired N clk w t = (c, Ok (n_gtb N e d))
+  | None => expired N clk w t = ((w, t), Ok false)
   end.
 Proof.
   intro HS. unfold expired. destruct (w_state w); [congruence| |]; (destruct (w_duration w) as [d|]; [|reflexivity]);
-    intros c e HE; rewrite HE; exists (e >? d); (split; [reflexivity|]); rewrite Z.gtb_gt; reflexivity.
+    intros c e HE; rewrite HE; reflexivity.
 Qed.
 
 (* ---- legality ---- *)
 
-Lemma illegal_raises o w t : legal o w = false -> step clk o w t = ((w, t), Exn RuntimeError).
+Lemma illegal_raises o w t : legal o w = false -> step N clk o w t = ((w, t), Exn RuntimeError).
 Proof.
   destruct o; try destruct return_none; wcases w; try destruct sd; cbn; intro H; try discriminate H; reflexivity.
 Qed.
 
 Lemma legal_returns o w t :
-  reachable clk (w, t) -> legal o w = true -> exists c v, step clk o w t = (c, Ok v).
+  reachable N clk (w, t) -> legal o w = true -> exists c v, step N clk o w t = (c, Ok v).
 Proof.
   intros HR HL. apply reachable_wf in HR. unfold wf in HR.
   destruct o; try destruct return_none; wcases w; try destruct sd; cbn in HL; try discriminate HL;
@@ -553,14 +515,14 @@ Proof.
 Qed.
 
 Lemma only_runtime_errors o w t c e :
-  reachable clk (w, t) -> step clk o w t = (c, Exn e) -> e = RuntimeError /\ c = (w, t) /\ legal o w = false.
+  reachable N clk (w, t) -> step N clk o w t = (c, Exn e) -> e = RuntimeError /\ c = (w, t) /\ legal o w = false.
 Proof.
   intros HR HS. destruct (legal o w) eqn:HL.
   - destruct (legal_returns o w t HR HL) as (c' & v & HS'). congruence.
   - rewrite (illegal_raises o w t HL) in HS. inversion HS. auto.
 Qed.
 
-Lemma legality_table w m rn :
+Lemma legality_table (w : watch T) m rn :
   map (fun o => legal o w) (all_ops m rn) =
   match w_state w with
   | SNone =>    [true; false; false; true; false; false; false; false; true; true; true; true; true; true]
@@ -573,7 +535,7 @@ Proof. wcases w; reflexivity. Qed.
 
 (* ---- number of clock readings ---- *)
 
-Lemma step_cost o w t : snd (fst (step clk o w t)) = (t + cost o w)%nat.
+Lemma step_cost o w t : snd (fst (step N clk o w t)) = (t + cost o w)%nat.
 Proof.
   destruct o; try destruct return_none; wcases w; try destruct sa; try destruct so; try destruct sd; cbn; lia.
 Qed.
@@ -582,14 +544,14 @@ Qed.
 
 Lemma restart_effect o w t :
   effective_restart o w = true ->
-  exists t', step clk o w t = ((mkWatch SStarted (Some (clk t')) None [] (w_duration w), S t'), Ok VSelf) /\ (t <= t')%nat.
+  exists t', step N clk o w t = ((mkWatch SStarted (Some (clk t')) None [] (w_duration w), S t'), Ok VSelf) /\ (t <= t')%nat.
 Proof.
   destruct o; wcases w; cbn; intro H; try discriminate H;
     try (exists t; split; [reflexivity|lia]); exists (S t); split; [reflexivity|lia].
 Qed.
 
 Lemma started_at_frame o w t :
-  effective_restart o w = false -> w_started (fst (fst (step clk o w t))) = w_started w.
+  effective_restart o w = false -> w_started (fst (fst (step N clk o w t))) = w_started w.
 Proof.
   destruct o; try destruct return_none; wcases w; try destruct sa; try destruct so; try destruct sd; cbn; intro H;
     try discriminate H; reflexivity.
@@ -597,7 +559,7 @@ Qed.
 
 Lemma stop_effect o w t :
   effective_stop o w = true ->
-  exists v, step clk o w t =
+  exists v, step N clk o w t =
             ((mkWatch SStopped (w_started w) (Some (clk t)) (w_splits w) (w_duration w), S t), Ok v).
 Proof.
   destruct o; wcases w; cbn; intro H; try discriminate H; eexists; reflexivity.
@@ -605,14 +567,14 @@ Qed.
 
 Lemma stopped_at_frame o w t :
   effective_stop o w = false -> effective_restart o w = false ->
-  w_stopped (fst (fst (step clk o w t))) = w_stopped w.
+  w_stopped (fst (fst (step N clk o w t))) = w_stopped w.
 Proof.
   destruct o; try destruct return_none; wcases w; try destruct sa; try destruct so; try destruct sd; cbn; intros H1 H2;
     try discriminate H1; try discriminate H2; reflexivity.
 Qed.
 
 Lemma state_transitions o w t :
-  w_state (fst (fst (step clk o w t))) =
+  w_state (fst (fst (step N clk o w t))) =
   if effective_restart o w then SStarted
   else if effective_stop o w then SStopped
   else match o, w_state w with OResume, SStopped => SStarted | _, s => s end.
@@ -625,32 +587,32 @@ Qed.
 (* __exit__ with or without an exception triple: never raises, returns None (the exception of the body
    propagates), stops a running watch at the reading it takes and leaves any other watch as it is *)
 Lemma exit_spec exc w t :
-  step clk (OExit exc) w t =
+  step N clk (OExit exc) w t =
   (match w_state w with
    | SStarted => (mkWatch SStopped (w_started w) (Some (clk t)) (w_splits w) (w_duration w), S t)
    | _ => (w, t)
    end, Ok VNone).
 Proof. wcases w; reflexivity. Qed.
 
-Lemma step_not_none o w t : w_state w <> SNone -> w_state (fst (fst (step clk o w t))) <> SNone.
+Lemma step_not_none o w t : w_state w <> SNone -> w_state (fst (fst (step N clk o w t))) <> SNone.
 Proof.
   intro H. rewrite state_transitions.
   destruct (effective_restart o w); [discriminate|]. destruct (effective_stop o w); [discriminate|].
   destruct o; try exact H; destruct (w_state w); try exact H; discriminate.
 Qed.
 
-Lemma final_not_none ops : forall w t, w_state w <> SNone -> w_state (fst (final clk ops w t)) <> SNone.
+Lemma final_not_none ops : forall w t, w_state w <> SNone -> w_state (fst (final N clk ops w t)) <> SNone.
 Proof.
   induction ops as [|o r IH]; intros w t H; [exact H|].
   cbn [final]. pose proof (step_not_none o w t H) as HS.
-  destruct (step clk o w t) as [[w' t'] res]. apply IH, HS.
+  destruct (step N clk o w t) as [[w' t'] res]. apply IH, HS.
 Qed.
 
 (* after  with sw: body [raise X]  the watch is stopped, whatever the body did and whether or not it raised;
    if the body left it running, _stopped_at is the reading taken by __exit__ *)
 Lemma with_block_stops body exc w0 t0 :
-  let c1 := final clk (OEnter :: body) w0 t0 in
-  let c2 := final clk (with_block body exc) w0 t0 in
+  let c1 := final N clk (OEnter :: body) w0 t0 in
+  let c2 := final N clk (with_block body exc) w0 t0 in
   w_state (fst c2) = SStopped /\
   (w_state (fst c1) = SStarted -> w_stopped (fst c2) = Some (clk (snd c1)) /\ snd c2 = S (snd c1)) /\
   (w_state (fst c1) = SStopped -> c2 = c1).
@@ -670,21 +632,21 @@ Qed.
 (* ---- splits ---- *)
 
 Lemma split_records w t c sp :
-  split_ clk w t = (c, Ok sp) ->
-  exists e, elapsed clk w t None = ((w, snd c), Ok e) /\ sp_elapsed sp = e /\
+  split_ N clk w t = (c, Ok sp) ->
+  exists e, elapsed N clk w t None = ((w, snd c), Ok e) /\ sp_elapsed sp = e /\
             sp_length sp = match last_opt (w_splits w) with
-                           | Some l => Z.max 0 (e - sp_elapsed l) | None => e end /\
+                           | Some l => delta N (sp_elapsed l) e | None => e end /\
             fst c = set_splits w (w_splits w ++ [sp]).
 Proof.
   unfold split_, elapsed. destruct (w_state w); try discriminate. destruct (w_started w) as [s|]; [|discriminate].
   intro H. inversion H; subst. cbn [snd fst]. eexists. split; [reflexivity|].
-  rewrite clamp_max_none. cbn [sp_elapsed sp_length]. repeat split.
+  cbn [sp_elapsed sp_length clamp_max]. repeat split.
 Qed.
 
 Lemma splits_frame o w t :
-  w_splits (fst (fst (step clk o w t))) =
+  w_splits (fst (fst (step N clk o w t))) =
   if effective_restart o w then []
-  else match o, snd (step clk o w t) with
+  else match o, snd (step N clk o w t) with
        | OSplit, Ok (VSplit sp) => w_splits w ++ [sp]
        | _, _ => w_splits w
        end.
@@ -693,229 +655,123 @@ Proof.
 Qed.
 
 Lemma build_elapsed s prev ks :
-  map sp_elapsed (build clk s prev ks) = map (fun k => delta s (clk k)) ks.
+  map sp_elapsed (build N clk s prev ks) = map (fun k => delta N s (clk k)) ks.
 Proof.
   revert prev. induction ks as [|k r IH]; intro prev; [reflexivity|].
   cbn [build map sp_elapsed]. rewrite IH. reflexivity.
 Qed.
 
-Lemma build_clamped s prev ks : clamped_diffs_from prev (build clk s prev ks).
+Lemma build_clamped s prev ks : clamped_diffs_from N prev (build N clk s prev ks).
 Proof.
   revert prev. induction ks as [|k r IH]; intro prev; [exact I|].
   cbn [build clamped_diffs_from sp_elapsed sp_length]. split; [reflexivity|apply IH].
 Qed.
 
-Lemma build_nonneg s prev ks :
-  Forall (fun x => 0 <= sp_elapsed x /\ 0 <= sp_length x) (build clk s prev ks).
+Lemma build_pos0 s prev ks :
+  Forall (fun x => pos0 (sp_elapsed x) /\ pos0 (sp_length x)) (build N clk s prev ks).
 Proof.
   revert prev. induction ks as [|k r IH]; intro prev; [constructor|].
   cbn [build]. constructor; [|apply IH]. cbn [sp_elapsed sp_length].
-  split; [apply delta_nonneg|]. destruct prev; apply delta_nonneg.
+  split; [apply delta_pos0|]. destruct prev; apply delta_pos0.
 Qed.
 
-Lemma sorted_elapsed i t ks :
-  monotone_upto clk t -> ticks_ok i t ks ->
-  StronglySorted Z.le (map (fun k => delta (clk i) (clk k)) ks).
-Proof.
-  intros HM [Hs Hf]. induction Hs as [|a r Hs IH Ha]; [constructor|].
-  inversion Hf as [|? ? Hat Hr]; subst. cbn [map]. constructor; [apply IH, Hr|].
-  rewrite Forall_map. rewrite Forall_forall in *. intros k Hk.
-  assert (clk a <= clk k) by (apply (monotone_le clk t HM); specialize (Ha k Hk); specialize (Hr k Hk); lia).
-  unfold delta. lia.
-Qed.
-
-Lemma clamped_sorted_diffs l : forall p,
-  clamped_diffs_from (Some p) l -> StronglySorted Z.le (p :: map sp_elapsed l) -> diffs_from p l.
-Proof.
-  induction l as [|x r IH]; intros p HC HS; [exact I|].
-  cbn [clamped_diffs_from diffs_from map] in *. destruct HC as [HL HC].
-  inversion HS as [|? ? HS' Hall]; subst. inversion Hall as [|? ? Hpx _]; subst.
-  split; [rewrite HL; apply delta_exact, Hpx|]. apply IH; [exact HC|exact HS'].
-Qed.
-
-Lemma splits_clamped w t :
-  reachable clk (w, t) ->
-  clamped_diffs_from None (w_splits w) /\ Forall (fun x => 0 <= sp_elapsed x /\ 0 <= sp_length x) (w_splits w).
+(* the splits of a reachable watch are the readings taken by the split calls since the last (re)start,
+   at increasing ticks after the start tick *)
+Lemma splits_are_built w t :
+  reachable N clk (w, t) ->
+  w_splits w = [] \/
+  exists i ks, (i < t)%nat /\ w_started w = Some (clk i) /\ ticks_ok i t ks /\ w_splits w = build N clk (clk i) None ks.
 Proof.
   intro HR. apply reachable_wf in HR. unfold wf in HR. cbn [fst snd] in HR.
   destruct (w_state w).
-  - destruct HR as (_ & _ & ->). split; [exact I|constructor].
-  - destruct HR as (i & ks & _ & _ & _ & ->). split; [apply build_clamped|apply build_nonneg].
-  - destruct HR as (i & j & ks & _ & _ & _ & _ & ->). split; [apply build_clamped|apply build_nonneg].
+  - left. tauto.
+  - right. destruct HR as (i & ks & Hi & Hs & Hk & Hb). exists i, ks. auto.
+  - right. destruct HR as (i & j & ks & Hi & Hs & _ & Hk & Hb). exists i, ks. split; [lia|auto].
 Qed.
 
-Lemma splits_monotone w t :
-  reachable clk (w, t) -> monotone_uptob clk t = true ->
-  StronglySorted Z.le (map sp_elapsed (w_splits w)) /\ diffs_from 0 (w_splits w).
+(* on any clock and for any number type: lengths are what _delta_seconds gives, every value is zero-or-positive *)
+Lemma splits_clamped w t :
+  reachable N clk (w, t) ->
+  clamped_diffs_from N None (w_splits w) /\ Forall (fun x => pos0 (sp_elapsed x) /\ pos0 (sp_length x)) (w_splits w).
 Proof.
-  intros HR HM. apply monotone_uptob_spec in HM.
-  destruct (splits_clamped w t HR) as [HC HN].
-  apply reachable_wf in HR. unfold wf in HR. cbn [fst snd] in HR.
-  assert (HS : StronglySorted Z.le (map sp_elapsed (w_splits w))).
-  { destruct (w_state w).
-    - destruct HR as (_ & _ & ->). constructor.
-    - destruct HR as (i & ks & _ & _ & Hk & ->). rewrite build_elapsed. eapply sorted_elapsed; eassumption.
-    - destruct HR as (i & j & ks & _ & _ & _ & Hk & ->). rewrite build_elapsed. eapply sorted_elapsed; eassumption. }
-  split; [exact HS|].
-  destruct (w_splits w) as [|x r]; [exact I|].
-  cbn [clamped_diffs_from diffs_from map] in *. destruct HC as [HL HC].
-  split; [lia|]. apply clamped_sorted_diffs; assumption.
+  intro HR. destruct (splits_are_built w t HR) as [->|(i & ks & _ & _ & _ & ->)].
+  - split; [exact I|constructor].
+  - split; [apply build_clamped|apply build_pos0].
 Qed.
 
 (* ---- histories ---- *)
 
-Lemma history_numbers_nonneg duration w0 ops :
-  init duration = Ok w0 ->
-  Forall (fun cr => forall z, snd cr = Ok (VNum z) -> 0 <= z) (trace clk ops w0 0%nat).
+Lemma history_numbers_pos0 duration w0 ops :
+  init N duration = Ok w0 ->
+  Forall (fun cr => forall z, snd cr = Ok (VNum z) -> pos0 z) (trace N clk ops w0 0%nat).
 Proof.
   intro Hi. apply trace_Forall; [|eapply reachable_init, Hi].
   intros o w t _ z. destruct o; unfold step, wrap; cbn [snd].
   all: try match goal with |- context [match ?m with (_, _) => _ end] => destruct m as [c [a|e]] eqn:E end; cbn [snd]; intro H; try discriminate H.
-  - inversion H; subst. eapply elapsed_nonneg, E.
+  - inversion H; subst. eapply elapsed_pos0, E.
   - destruct a as [z'|]; inversion H; subst. clear H.
     unfold leftover in E. destruct (w_state w); try discriminate E.
     destruct (w_duration w); [|destruct return_none; discriminate E].
-    destruct (elapsed clk w t None) as [c' [e'|x]]; inversion E. lia.
+    destruct (elapsed N clk w t None) as [c' [e'|x]]; inversion E. apply max0_pos0.
 Qed.
 
 Lemma history_only_runtime_errors duration w0 ops :
-  init duration = Ok w0 ->
-  Forall (fun cr => forall e, snd cr = Exn e -> e = RuntimeError) (trace clk ops w0 0%nat).
+  init N duration = Ok w0 ->
+  Forall (fun cr => forall e, snd cr = Exn e -> e = RuntimeError) (trace N clk ops w0 0%nat).
 Proof.
   intro Hi. apply trace_Forall; [|eapply reachable_init, Hi].
-  intros o w t HR e. destruct (step clk o w t) as [c r] eqn:E. cbn [snd]. intro H. subst r.
+  intros o w t HR e. destruct (step N clk o w t) as [c r] eqn:E. cbn [snd]. intro H. subst r.
   eapply only_runtime_errors; eassumption.
 Qed.
 
-End Props.
-
-(* ===================================================================== *)
-(* C. non-vacuity: instances of the hypotheses, and negative controls     *)
-(* ===================================================================== *)
-
-Definition ex_clk : nat -> Z := fun n => 100 + 3 * Z.of_nat n.
-Definition ex_back : nat -> Z := fun n => 100 - Z.of_nat n.
-Definition ex_watch : watch := mkWatch SNone None None [] (Some 5).
-Definition ex_ops : list op := [OStart; OSplit; OSplit; OStop; OResume; OSplit].
-
-Lemma ex_watch_init : init (Some 5) = Ok ex_watch.
-Proof. reflexivity. Qed.
-
-(* a reachable running watch under a monotonic clock: start@100, splits@103,106, stop@109, resume, split@112 *)
-Example ex_running :
-  let c := final ex_clk ex_ops ex_watch 0 in
-  reachable ex_clk c /\ w_state (fst c) = SStarted /\ snd c = 5%nat /\
-  monotone_uptob ex_clk 6 = true /\
-  w_splits (fst c) = [mkSplit 3 3; mkSplit 6 3; mkSplit 12 6] /\
-  elapsed ex_clk (fst c) 5 None = ((fst c, 6%nat), Ok 15) /\
-  elapsed ex_clk (fst c) 5 (Some 4) = ((fst c, 6%nat), Ok 4) /\
-  leftover ex_clk (fst c) 5 false = ((fst c, 6%nat), Ok (Some 0)) /\
-  expired ex_clk (fst c) 5 = ((fst c, 6%nat), Ok true).
-Proof.
-  split; [exists (Some 5), ex_watch, ex_ops; split; reflexivity|]. vm_compute. repeat split.
-Qed.
-
-(* a reachable stopped watch *)
-Example ex_stopped :
-  let c := final ex_clk [OStart; OSplit; OStop] ex_watch 0 in
-  reachable ex_clk c /\ w_state (fst c) = SStopped /\ monotone_uptob ex_clk (snd c) = true /\
-  elapsed ex_clk (fst c) (snd c) None = (c, Ok 6) /\
-  legal OSplit (fst c) = false /\ legal OResume (fst c) = true /\ legal (OLeftover true) (fst c) = false.
-Proof.
-  split; [exists (Some 5), ex_watch, [OStart; OSplit; OStop]; split; reflexivity|]. vm_compute. repeat split.
-Qed.
-
-(* illegal calls exist in every state; on a fresh watch: stop, resume, split, elapsed, leftover, expired *)
-Example ex_illegal :
-  map (fun o => legal o ex_watch) (all_ops None false) =
-  [true; false; false; true; false; false; false; false; true; true; true; true; true; true] /\
-  step ex_clk OResume ex_watch 0 = ((ex_watch, 0%nat), Exn RuntimeError).
-Proof. split; reflexivity. Qed.
-
-(* negative control: on a clock that runs backwards the elapsed time is clamped at 0,
-   it is NOT the (negative) clock distance — the monotonic-clock hypothesis is needed *)
-Example ex_backwards_clock :
-  let c := final ex_back [OStart] ex_watch 0 in
-  monotone_uptob ex_back 2 = false /\
-  elapsed ex_back (fst c) (snd c) None = ((fst c, 2%nat), Ok 0) /\ ex_back 1 - ex_back 0 = -1.
-Proof. vm_compute. repeat split. Qed.
-
-(* negative control: a negative maximum is answered by 0, which exceeds it — "never exceeds the
-   requested maximum" needs 0 <= maximum (it contradicts "never negative" otherwise) *)
-Example ex_negative_maximum :
-  let c := final ex_clk [OStart] ex_watch 0 in
-  elapsed ex_clk (fst c) (snd c) (Some (-1)) = ((fst c, 2%nat), Ok 0).
-Proof. vm_compute. reflexivity. Qed.
-
-(* ===================================================================== *)
-(* D. the timestamps, history-wise                                       *)
-(* ===================================================================== *)
-Section Timestamps.
-Variable clk : nat -> Z.
+(* ---- the timestamps, history-wise ---- *)
 
 Lemma no_restart_keeps_started ops : forall w t,
-  restarts_in clk ops w t = false -> w_started (fst (final clk ops w t)) = w_started w.
+  restarts_in N clk ops w t = false -> w_started (fst (final N clk ops w t)) = w_started w.
 Proof.
   induction ops as [|o r IH]; intros w t H; [reflexivity|].
   cbn [restarts_in final] in *. apply orb_false_elim in H. destruct H as [H1 H2].
-  pose proof (started_at_frame clk o w t H1) as HF.
-  destruct (step clk o w t) as [[w' t'] res]. cbn [fst] in HF. rewrite (IH w' t' H2). exact HF.
+  pose proof (started_at_frame o w t H1) as HF.
+  destruct (step N clk o w t) as [[w' t'] res]. cbn [fst] in HF. rewrite (IH w' t' H2). exact HF.
 Qed.
 
 (* _started_at is the last clock reading taken by the last (re)start of the history *)
 Lemma started_at_is_last_restart ops1 o ops2 w0 t0 :
-  let c1 := final clk ops1 w0 t0 in
+  let c1 := final N clk ops1 w0 t0 in
   effective_restart o (fst c1) = true ->
-  let c2 := fst (step clk o (fst c1) (snd c1)) in
-  restarts_in clk ops2 (fst c2) (snd c2) = false ->
-  w_started (fst (final clk (ops1 ++ o :: ops2) w0 t0)) = Some (clk (snd c2 - 1)) /\ (snd c1 < snd c2)%nat.
+  let c2 := fst (step N clk o (fst c1) (snd c1)) in
+  restarts_in N clk ops2 (fst c2) (snd c2) = false ->
+  w_started (fst (final N clk (ops1 ++ o :: ops2) w0 t0)) = Some (clk (snd c2 - 1)) /\ (snd c1 < snd c2)%nat.
 Proof.
   intros c1 HR c2 HN. rewrite final_app. fold c1. cbn [final].
-  destruct (restart_effect clk o (fst c1) (snd c1) HR) as (t' & HS & Ht).
+  destruct (restart_effect o (fst c1) (snd c1) HR) as (t' & HS & Ht).
   subst c2. rewrite HS in *. cbn [fst snd] in *.
   rewrite (no_restart_keeps_started ops2 _ _ HN). cbn [w_started].
   split; [do 2 f_equal; lia|lia].
 Qed.
 
 Lemma no_stop_keeps_stopped ops : forall w t,
-  stops_in clk ops w t = false -> w_stopped (fst (final clk ops w t)) = w_stopped w.
+  stops_in N clk ops w t = false -> w_stopped (fst (final N clk ops w t)) = w_stopped w.
 Proof.
   induction ops as [|o r IH]; intros w t H; [reflexivity|].
   cbn [stops_in final] in *. apply orb_false_elim in H. destruct H as [H1 H2].
   apply orb_false_elim in H1. destruct H1 as [H0 H1].
-  pose proof (stopped_at_frame clk o w t H0 H1) as HF.
-  destruct (step clk o w t) as [[w' t'] res]. cbn [fst] in HF. rewrite (IH w' t' H2). exact HF.
+  pose proof (stopped_at_frame o w t H0 H1) as HF.
+  destruct (step N clk o w t) as [[w' t'] res]. cbn [fst] in HF. rewrite (IH w' t' H2). exact HF.
 Qed.
 
 (* _stopped_at is the clock reading taken by the last stop of the history *)
 Lemma stopped_at_is_last_stop ops1 o ops2 w0 t0 :
-  let c1 := final clk ops1 w0 t0 in
+  let c1 := final N clk ops1 w0 t0 in
   effective_stop o (fst c1) = true ->
-  let c2 := fst (step clk o (fst c1) (snd c1)) in
-  stops_in clk ops2 (fst c2) (snd c2) = false ->
-  w_stopped (fst (final clk (ops1 ++ o :: ops2) w0 t0)) = Some (clk (snd c1)).
+  let c2 := fst (step N clk o (fst c1) (snd c1)) in
+  stops_in N clk ops2 (fst c2) (snd c2) = false ->
+  w_stopped (fst (final N clk (ops1 ++ o :: ops2) w0 t0)) = Some (clk (snd c1)).
 Proof.
   intros c1 HR c2 HN. rewrite final_app. fold c1. cbn [final].
-  destruct (stop_effect clk o (fst c1) (snd c1) HR) as (v & HS).
+  destruct (stop_effect o (fst c1) (snd c1) HR) as (v & HS).
   subst c2. rewrite HS in *. cbn [fst snd] in *.
   rewrite (no_stop_keeps_stopped ops2 _ _ HN). reflexivity.
 Qed.
 
-End Timestamps.
-
-(* instance: start@100 ... the last (re)start of ex_ops ++ [ORestart; OSplit; OStop] is the restart *)
-Example ex_last_restart :
-  let ops1 := ex_ops in
-  let c1 := final ex_clk ops1 ex_watch 0 in
-  effective_restart ORestart (fst c1) = true /\
-  restarts_in ex_clk [OSplit; OStop] (fst (fst (step ex_clk ORestart (fst c1) (snd c1)))) 7 = false /\
-  w_started (fst (final ex_clk (ops1 ++ ORestart :: [OSplit; OStop]) ex_watch 0)) = Some (ex_clk 6).
-Proof. vm_compute. repeat split. Qed.
-
-(* the literal "never exceeds the maximum" for every maximum is false: elapsed(maximum=-1) = 0 on a running watch *)
-Lemma elapsed_max_literal_refuted : ~ C13_elapsed_max_full_statement.
-Proof.
-  intro H.
-  specialize (H ex_clk (mkWatch SStarted (Some 100) None [] None) 1%nat (-1) _ _ eq_refl).
-  vm_compute in H. apply H. reflexivity.
-Qed.
+End Machine.
